@@ -78,6 +78,24 @@ Theorem C09_fuse_read_refines_blob : forall H maxsz idx blob store n rqs h off l
 Proof. exact fuse_read_refines_blob. Qed.
 Print Assumptions C09_fuse_read_refines_blob.
 
+(* Overlapping FUSE requests on DIFFERENT handles.  A handle runs its own requests one after the other (its mutex) and
+   shares nothing with other handles but the store; whatever the other handles do while one of its requests is under
+   way can only change which store answers that request's GetChunk calls receive.  So: let every request of this handle
+   see an ARBITRARY store view (any sound store, any call numbers -- unrelated between requests: every interleaving
+   with any number of other handles and requests); then every answer is still blob[off, off+min(size, L-off)), or EIO
+   only for an offset outside the blob or a store failure in that request.  (That handles really share nothing is a
+   fact about mount-index.go, checked on the implementation by the harness's overlapping-read cases: one request is
+   held inside the store while requests on other handles run.) *)
+Theorem C09_fuse_overlapping_reads : forall H maxsz idx blob rqs st calls off len,
+  index_describes H idx blob ->
+  Forall (fun rq => store_sound H (fst (fst (fst rq)))) rqs -> store_sound H st ->
+  let nc := new_null_chunk H maxsz in
+  let s := fst (handle_run nc idx (new_ipos idx) rqs) in
+  fuse_post blob st calls (snd (fst (fuse_read st nc idx (s, calls) off len))) off len
+            (snd (fuse_read st nc idx (s, calls) off len)) \/ Collision H.
+Proof. exact fuse_overlapping_reads. Qed.
+Print Assumptions C09_fuse_overlapping_reads.
+
 (* The empty index (empty blob): for every history and every store, each Read returns (0, io.EOF), Seek succeeds
    exactly when its target is 0, the store is never called, nothing panics. *)
 Theorem C09_ipos_empty : forall store nc ops,
